@@ -1,0 +1,5 @@
+//go:build !verif
+
+package codec
+
+func verifPoint(point string, name string) {}
